@@ -41,14 +41,22 @@ def sh(cmd, timeout, cwd=VERIF, env=None, ok_codes=(0,)):
     e = dict(os.environ)
     if env:
         e.update(env)
+    # (own process group: on a time-out the whole tree goes - `tlc` is a wrapper script whose java child would live on)
+    import signal
+    proc = subprocess.Popen(cmd, cwd=cwd, env=e, stdout=subprocess.PIPE, stderr=subprocess.STDOUT, text=True, errors="replace",
+                            start_new_session=True)
     try:
-        p = subprocess.run(cmd, cwd=cwd, env=e, stdout=subprocess.PIPE, stderr=subprocess.STDOUT,
-                           timeout=timeout, text=True, errors="replace")
+        out, _ = proc.communicate(timeout=timeout)
     except subprocess.TimeoutExpired as ex:
+        try:
+            os.killpg(proc.pid, signal.SIGKILL)
+        except OSError:
+            pass
+        proc.communicate()
         raise ToolError("timeout after %ss: %s" % (timeout, " ".join(cmd[:6]))) from ex
-    if p.returncode not in ok_codes:
-        raise ToolError("exit %s from %s\n%s" % (p.returncode, " ".join(cmd[:8]), p.stdout[-3000:]))
-    return p.stdout
+    if proc.returncode not in ok_codes:
+        raise ToolError("exit %s from %s\n%s" % (proc.returncode, " ".join(cmd[:8]), out[-3000:]))
+    return out
 
 
 _built = False
